@@ -30,7 +30,9 @@ ASSUMPTIONS = [
     "(set_params, apply_to_arrays, modify) are in-place by definition",
 ]
 ALLSYMS = ("Z2", "U1", "Z2Z2", "U1U1", "Z4")
-WEIGHTS = {"fuse": 2, "reshape": 2, "tensordot": 3, "svd_truncated": 2,
+WEIGHTS = {"fuse": 3, "unfuse": 4, "unfuse_all": 2, "phase_flip": 2,
+           "phase_transpose": 2, "reshape": 2, "tensordot": 3,
+           "svd_truncated": 2,
            "qr": 2, "svd": 2, "conj": 2, "dagger": 2, "add": 2, "mul": 2,
            "phase_sync": 2, "sync_charges": 2, "align_axes": 2}
 
@@ -91,7 +93,32 @@ def law_history(ch):
         if not ops.is_arr(x):
             continue
         rule = ch.choice(["op", "op", "op", "inplace-kw", "inplace-kw",
-                          "ioperator", "blocks"], t + ".rule")
+                          "ioperator", "blocks", "lazy-pair"], t + ".rule")
+        if rule == "lazy-pair":
+            # a pair of operations: first make the member lazily signed
+            # (out of place), then run an operation that has to apply the
+            # signs on that lazy operand; the lazy operand must stay lazy
+            if not (ops.ferm(x) and x.ndim >= 1 and x.blocks):
+                continue
+            axs = ch.subset(range(x.ndim), t + ".flip", min_size=1)
+            z = must(x.phase_flip, *axs, what="phase_flip")
+            pool.verify("phase_flip")
+            pool.add(z)
+            names = [n for n, o in ops.OPS.items() if o.reads_blocks]
+            op, args = ops.draw_op(ch, z, t, names=names,
+                                   weights={"unfuse": 5, "fuse": 3,
+                                            "reshape": 2})
+            if op is None:
+                continue
+            ok, r = attempt(op.apply, z, args)
+            pool.verify(f"{op.name}[lazy operand]")
+            if ok:
+                for y in ops.arrays_in(r):
+                    if ops.is_arr(y) and y.ndim <= 6:
+                        pool.add(y)
+            nontrivial = nontrivial or bool(z.phases)
+            done.append(f"lazy:{op.name}")
+            continue
         if rule == "op":
             op, args = ops.draw_op(ch, x, t, weights=WEIGHTS)
             if op is None:
